@@ -191,13 +191,13 @@ type streamRun struct {
 }
 
 type simReader struct {
-	run    *streamRun
-	idx    int
-	data   []byte
-	eio    bool
-	pos    int
-	step   int
-	sticky error
+	run     *streamRun
+	idx     int
+	data    []byte
+	eio     bool
+	pos     int
+	step    int
+	sticky  error
 	zeroRun int
 }
 
